@@ -8,6 +8,7 @@ import (
 	"sort"
 	"strings"
 	"sync"
+	"time"
 
 	"verifharness/lib"
 )
@@ -29,6 +30,7 @@ type c04in struct {
 	// Edge names the instants within 2 ms of a transition that is not on the millisecond grid
 	// (the code compares whole microseconds; the exact model is not compared there)
 	Edge string `json:"edge,omitempty"`
+	Form string `json:"form,omitempty"` // "nowDate": the instant is given as nowDate=<RFC 3339 with milliseconds>
 }
 
 func phaseOK(want, got int) bool {
@@ -374,8 +376,11 @@ func run(c *lib.Ctx) error {
 				return ""
 			}
 		}
+		if t.cfg.StartS == 0 {
+			nows = append(nows, 0, 1) // the very first instants of a stream that starts at the epoch
+		}
 		sort.Slice(nows, func(i, j int) bool { return nows[i] < nows[j] })
-		for _, now := range nows {
+		for ni, now := range nows {
 			if now < 0 {
 				continue
 			}
@@ -386,6 +391,14 @@ func run(c *lib.Ctx) error {
 			in := c04in{Asset: t.a.Path, Rep: t.r.ID, Kind: kind, Cfg: t.cfg, N: t.n, SegID: t.segID, NowMS: now, Want: wantOf(now), Edge: edgeOf(now)}
 			in.URL = lib.SegURL(t.a, t.cfg, t.r, t.segID, now)
 			jobs = append(jobs, &job{in: in, t: t, sweep: si})
+			// the same instant written as a date (the handler adds 1 ms to a nowDate): same answer
+			if (ni+si)%3 == 0 && now >= 1 {
+				in2 := in
+				in2.Form = "nowDate"
+				d := time.UnixMilli(now - 1).UTC().Format("2006-01-02T15:04:05.000Z")
+				in2.URL = strings.Replace(in.URL, fmt.Sprintf("?nowMS=%d", now), "?nowDate="+d, 1)
+				jobs = append(jobs, &job{in: in2, t: t, sweep: -2 - si})
+			}
 		}
 	}
 	// 404 cases: numbers below startNumber, unknown representation, unknown asset
